@@ -8,6 +8,8 @@ CONSTANTS
   Threshold = 1
   PktLens = {1}
   ExtInfo = TRUE
+  NetCap = 1000000
+  ReleaseAfterFlush = FALSE
 INVARIANTS TypeOK K1Wire K2State K3 QueueOnlyInKex
 PROPERTIES K1 K2
 CHECK_DEADLOCK FALSE
